@@ -25,7 +25,39 @@ def run(ctx):
         runs.monitor_batch(ctx, PID, ctx.size(250, 3000), force=FORCE),
         # filters that look at demes of other parents / other levels: deep trees, repeated bests
         refine.refine_batch(ctx, ctx.size(40, 400), salt=37, force=_deep_chains, pid=PID, name="trace-refinement(3-level trees, best-per-deme / NBC generators, SkipSameSprout + LevelLimit chains)"),
+        # the local-method generator's extra rule: a deme that has just finished offers its best individual
+        refine.refine_batch(ctx, ctx.size(40, 400), salt=41, force=_just_finished, pid=PID, name="trace-refinement(NBCGeneratorWithLocalMethod, demes above the leaves finish by their LSC, non-elitist engines)"),
+        runs.monitor_batch(ctx, PID, ctx.size(40, 400), salt=43, name="traced-runs-monitor-C10(local-method generator, demes above the leaves finish)", force=_just_finished),
     ]
+
+
+def _just_finished(rng):
+    """NBCGeneratorWithLocalMethod offers the best individual *ever* of a deme one level above the
+    leaves that stopped in the metaepoch just run.  Non-elitist engines there (MWEA, CMA-ES), so
+    that this best is usually not in the last generation; the LSC stops them after 2-4 metaepochs."""
+    nlev = int(rng.choice([2, 3, 3]))
+    stop = {"kind": "MetaepochLimit", "limit": int(rng.integers(2, 5))}
+    if nlev == 2:
+        eng = {0: ["mwea", "mwea", "sea"], 1: ["local", "local", "cma", "sea"]}
+        lsc = {0: stop}
+    else:
+        eng = {0: ["sea", "de", "mwea"], 1: ["cma", "cmaw", "mwea", "cma"], 2: ["local", "local", "cma", "sea"]}
+        lsc = {1: stop}
+    sprout = {
+        "kind": "custom",
+        "generator": "nbc_local",
+        "gen_dist_factor": float(rng.uniform(1, 2.5)),
+        "trunc_factor": float(rng.choice([0.7, 1.0])),
+        "deme_filters": [f for f in ["far", "demelimit"] if rng.random() < 0.3],
+        "far_enough": float(rng.uniform(0.02, 0.1)),
+        "fil_dist_factor": float(rng.uniform(0.3, 2)),
+        "norm_ord": 2,
+        "check_only_active": bool(rng.random() < 0.5),
+        "deme_limit": int(rng.integers(1, 3)),
+        "tree_filters": ["levellimit"],
+        "level_limit": int(rng.integers(2, 6)),
+    }
+    return {"nlev": nlev, "engines": eng, "lsc": lsc, "sprout": sprout, "min_generations": 2, "gsc": {"kind": "MetaepochLimit", "limit": int(rng.integers(6, 11))}}
 
 
 def _deep_chains(rng):
@@ -51,6 +83,9 @@ def _deep_chains(rng):
 
 
 def search(ctx, broken):
+    v = runs.monitor_batch(ctx, PID, 150, salt=95, force=_just_finished).violations
+    if v:
+        return v
     return runs.monitor_batch(ctx, PID, 500, salt=97, force=FORCE).violations
 
 
